@@ -34,16 +34,16 @@ def _op(draw):
     op = {"op": k}
     if k in ("forward", "inverse"):
         op["seed"] = draw(st.integers(0, 1000))
-        op["rows"] = draw(st.integers(2, 6))
+        op["rows"] = draw(st.sampled_from([1, 2, 3, 4, 6]))    # 1 row: legal for 4-D ActNorm batches (statistics over H*W pixels)
         op["scale"] = draw(st.sampled_from([1.0, 3.0, 0.2]))
-        op["shift"] = draw(st.sampled_from([0.0, 2.0, -5.0]))
+        op["shift"] = draw(st.sampled_from([0.0, 2.0, -5.0, 300.0, -1000.0]))
     return op
 
 
 @st.composite
 def _case(draw):
     kind = draw(st.sampled_from(["actnorm", "batchnorm"]))
-    c = {"kind": kind, "features": draw(st.integers(1, 4)), "start_eval": draw(st.booleans()),
+    c = {"kind": kind, "features": draw(st.integers(1, 4)), "start_eval": draw(st.booleans()), "precise": draw(st.sampled_from([True, True, False])),
          "ops": draw(st.lists(_op(), min_size=2, max_size=20))}
     if kind == "actnorm":
         c["img"] = draw(st.booleans())
@@ -61,8 +61,12 @@ def case_strategy(tier):
 def _batch(case, op):
     g = torch.Generator().manual_seed(op["seed"])
     f = case["features"]
-    shape = [op["rows"], f] + (case["hw"] if case.get("img") else [])
-    return torch.randn(shape, generator=g) * op["scale"] + op["shift"] + torch.arange(f, dtype=torch.float64).reshape([1, f] + [1] * (len(shape) - 2))
+    rows = op["rows"]
+    if rows < 2 and not case.get("img"):
+        rows = 2            # a single 2-D row has no variance: outside the documented domain
+    shape = [rows, f] + (case["hw"] if case.get("img") else [])
+    x = torch.randn(shape, generator=g, dtype=torch.float64) * op["scale"] + op["shift"] + torch.arange(f, dtype=torch.float64).reshape([1, f] + [1] * (len(shape) - 2))
+    return x
 
 
 def _sd_equal(sd, ref, tol=1e-9):
@@ -72,7 +76,7 @@ def _sd_equal(sd, ref, tol=1e-9):
         a, b = sd[k].double(), torch.as_tensor(v, dtype=torch.float64)
         if a.shape != b.shape:
             return "%s shape %s vs %s" % (k, tuple(a.shape), tuple(b.shape))
-        if a.numel() and float((a - b).abs().max()) > tol * (1 + float(b.abs().max())):
+        if a.numel() and float(((a - b).abs() - tol * (b.abs() + (1e-3 if tol > 1e-6 else 1e-6))).max()) > 0:
             return "%s = %s, reference model %s" % (k, a.reshape(-1).tolist()[:4], b.reshape(-1).tolist()[:4])
     return None
 
@@ -83,13 +87,15 @@ def run_case(case):
 
     res = CaseResult()
     f = case["features"]
-    with dtype_mode(True):
+    with dtype_mode(case.get("precise", True)):
+        TOL = 1e-9 if case.get("precise", True) else 2e-3   # float32: the subject sees float32 data, the model runs in float64
+        DT = torch.get_default_dtype()
         if case["kind"] == "actnorm":
             mk = lambda: T.ActNorm(f)  # noqa
-            model = {"initialized": False, "log_scale": torch.zeros(f), "shift": torch.zeros(f)}
+            model = {"initialized": False, "log_scale": torch.zeros(f, dtype=torch.float64), "shift": torch.zeros(f, dtype=torch.float64)}
         else:
             mk = lambda: T.BatchNorm(f, eps=case["eps"], momentum=case["momentum"])  # noqa
-            model = {"running_mean": torch.zeros(f), "running_var": torch.zeros(f), "conv": None}
+            model = {"running_mean": torch.zeros(f, dtype=torch.float64), "running_var": torch.zeros(f, dtype=torch.float64), "conv": None}
         subj = mk()
         site = type(subj).__name__
         training = True
@@ -98,7 +104,7 @@ def run_case(case):
             training = False
         hist = []
         trained_fwd, switched = False, False
-        res.labels.append("kind:" + case["kind"] + (":4D" if case.get("img") else ""))
+        res.labels += ["kind:" + case["kind"] + (":4D" if case.get("img") else ""), "dtype:%s" % ("f64" if case.get("precise", True) else "f32")]
         for step, op in enumerate(case["ops"]):
             k = op["op"]
             hist.append(k + ("" if k not in ("forward", "inverse") else ("(T)" if training else "(E)")))
@@ -119,7 +125,11 @@ def run_case(case):
             elif k == "deepcopy":
                 subj = copy.deepcopy(subj)
             else:
-                x = _batch(case, op)
+                xb = _batch(case, op)
+                if case["kind"] == "actnorm" and not case.get("precise", True) and abs(op["shift"]) > 10:
+                    xb = xb - op["shift"]      # float32 ActNorm output = scale*x + shift cancels catastrophically for |x|/std ~ 1e5
+                xd = xb.to(DT).double()      # exactly the values the subject sees, in float64 for the model
+                x = xd.to(DT)
                 red = [0] + list(range(2, x.dim()))
                 n_per = x.numel() // f
                 if case["kind"] == "actnorm":
@@ -127,12 +137,16 @@ def run_case(case):
                     bshape = [1, f] + [1] * (x.dim() - 2)
                     if k == "forward":
                         y, ld = subj(x)
+                        y, ld = y.double(), ld.double()
                         if training and not model["initialized"]:
                             # data-dependent initialisation happens here and only here
                             mean = y.mean(red)
                             var_b = y.var(red, unbiased=False)
-                            ok_var = bool(((var_b - 1).abs() < 1e-8).all()) or bool(((var_b * n_per / (n_per - 1) - 1).abs() < 1e-8).all())
-                            if float(mean.abs().max()) > 1e-8 or not ok_var:
+                            t0 = 1e-8 if TOL < 1e-6 else 5e-3
+                            ok_var = bool(((var_b - 1).abs() < t0).all()) or bool(((var_b * n_per / (n_per - 1) - 1).abs() < t0).all())
+                            # float32: outputs are scale*x + shift with |scale*x| up to amp, so their mean carries ~amp*2^-23 noise
+                            amp = float(xd.abs().max()) * float(torch.exp(subj.state_dict()["log_scale"].double()).max())
+                            if float(mean.abs().max()) > t0 + (0 if TOL < 1e-6 else 16 * 2.0 ** -23 * amp) or not ok_var:
                                 res.fail("actnorm_init", site, "first training forward: outputs have mean %s, biased variance %s (history %s)" % (
                                     mean.tolist(), var_b.tolist(), hist))
                                 return res
@@ -140,34 +154,37 @@ def run_case(case):
                             if not bool(sd["initialized"]):
                                 res.fail("actnorm_flag", site, "initialized flag still False after the first training forward")
                                 return res
-                            model.update(initialized=True, log_scale=sd["log_scale"].clone(), shift=sd["shift"].clone())
-                        ref = torch.exp(model["log_scale"]).reshape(bshape) * x + model["shift"].reshape(bshape)
+                            model.update(initialized=True, log_scale=sd["log_scale"].double().clone(), shift=sd["shift"].double().clone())
+                        ref = torch.exp(model["log_scale"]).reshape(bshape) * xd + model["shift"].reshape(bshape)
                         lref = hw * float(model["log_scale"].sum())
                     else:
                         y, ld = subj.inverse(x)
-                        ref = (x - model["shift"].reshape(bshape)) / torch.exp(model["log_scale"]).reshape(bshape)
+                        y, ld = y.double(), ld.double()
+                        ref = (xd - model["shift"].reshape(bshape)) / torch.exp(model["log_scale"]).reshape(bshape)
                         lref = -hw * float(model["log_scale"].sum())
-                    if float((y - ref).abs().max()) > 1e-9 * (1 + float(ref.abs().max())) or float((ld - lref).abs().max()) > 1e-9 * (1 + abs(lref)):
+                    if float((y - ref).abs().max()) > TOL * (1 + float(ref.abs().max())) or float((ld - lref).abs().max()) > TOL * (1 + abs(lref)):
                         res.fail("actnorm_output", site, "step %d %s: outputs/log-det differ from the reference model (max %.3g / %.3g); history %s" % (
                             step, hist[-1], float((y - ref).abs().max()), float((ld - lref).abs().max()), hist))
                         return res
                     bad = _sd_equal(subj.state_dict(), {"initialized": torch.tensor(float(model["initialized"])),
-                                                        "log_scale": model["log_scale"], "shift": model["shift"]})
+                                                        "log_scale": model["log_scale"], "shift": model["shift"]}, TOL)
                     if bad:
                         res.fail("actnorm_state", site, "step %d %s: %s; history %s" % (step, hist[-1], bad, hist))
                         return res
                 else:
-                    w = torch.nn.functional.softplus(subj.unconstrained_weight.detach()) + case["eps"]
-                    b = subj.bias.detach()
+                    w = torch.nn.functional.softplus(subj.unconstrained_weight.detach().double()) + case["eps"]
+                    b = subj.bias.detach().double()
                     m_ = case["momentum"]
                     if k == "forward":
                         y, ld = subj(x)
+                        y, ld = y.double(), ld.double()
                         if training:
-                            mean = x.mean(0)
-                            cands = {"unbiased": x.var(0, unbiased=True), "biased": x.var(0, unbiased=False)}
+                            mean = xd.mean(0)
+                            cands = {"unbiased": xd.var(0, unbiased=True), "biased": xd.var(0, unbiased=False)}
                             # normalisation convention (outputs)
                             oks = [c for c, v in cands.items()
-                                   if float((y - (w * (x - mean) / torch.sqrt(v + case["eps"]) + b)).abs().max()) < 1e-9 * (1 + float(y.abs().max()))]
+                                   if float((y - (w * (xd - mean) / torch.sqrt(v + case["eps"]) + b)).abs().max()) < TOL * (1 + float(y.abs().max()))
+                                   + (0 if TOL < 1e-6 else 2.0 ** -20 * float(xd.abs().max()) / float(torch.sqrt(v + case["eps"]).min()))]
                             if not oks:
                                 res.fail("batchnorm_train_output", site, "training forward does not normalise with the batch statistics; history %s" % hist)
                                 return res
@@ -179,7 +196,7 @@ def run_case(case):
                             conv = model["conv"]
                             if conv is None:
                                 for c, v in cands.items():
-                                    if float((sd["running_var"] - ((1 - m_) * model["running_var"] + m_ * v)).abs().max()) < 1e-9 * (1 + float(v.abs().max())):
+                                    if float((sd["running_var"].double() - ((1 - m_) * model["running_var"] + m_ * v)).abs().max()) < (1e-9 if TOL < 1e-6 else 1e-3) * m_ * float(v.abs().max()) + 1e-12:
                                         conv = c
                                 if conv is None:
                                     res.fail("batchnorm_running", site, "running_var after the first training forward follows neither variance convention "
@@ -190,13 +207,13 @@ def run_case(case):
                             model["running_var"] = (1 - m_) * model["running_var"] + m_ * cands[conv]
                             trained_fwd = True
                         else:
-                            ref = w * (x - model["running_mean"]) / torch.sqrt(model["running_var"] + case["eps"]) + b
+                            ref = w * (xd - model["running_mean"]) / torch.sqrt(model["running_var"] + case["eps"]) + b
                             lref = float((torch.log(w) - 0.5 * torch.log(model["running_var"] + case["eps"])).sum())
-                            if float((y - ref).abs().max()) > 1e-9 * (1 + float(ref.abs().max())):
+                            if float((y - ref).abs().max()) > TOL * (1 + float(ref.abs().max())) * (1 + float((w / torch.sqrt(model["running_var"] + case["eps"])).max()) * (0 if TOL < 1e-6 else 1)):
                                 res.fail("batchnorm_eval_output", site, "eval forward does not use the running statistics (max diff %.3g); history %s" % (
                                     float((y - ref).abs().max()), hist))
                                 return res
-                        if float((ld - lref).abs().max()) > 1e-9 * (1 + abs(lref)):
+                        if float((ld - lref).abs().max()) > TOL * (1 + abs(lref)):
                             res.fail("batchnorm_logdet", site, "step %d %s: log-det %s, reference %r; history %s" % (step, hist[-1], ld.tolist()[:3], lref, hist))
                             return res
                     else:
@@ -210,12 +227,13 @@ def run_case(case):
                                 return res
                         else:
                             y, ld = subj.inverse(x)
-                            ref = torch.sqrt(model["running_var"] + case["eps"]) * (x - b) / w + model["running_mean"]
+                            y, ld = y.double(), ld.double()
+                            ref = torch.sqrt(model["running_var"] + case["eps"]) * (xd - b) / w + model["running_mean"]
                             lref = -float((torch.log(w) - 0.5 * torch.log(model["running_var"] + case["eps"])).sum())
-                            if float((y - ref).abs().max()) > 1e-9 * (1 + float(ref.abs().max())) or float((ld - lref).abs().max()) > 1e-9 * (1 + abs(lref)):
+                            if float((y - ref).abs().max()) > TOL * (1 + float(ref.abs().max())) or float((ld - lref).abs().max()) > TOL * (1 + abs(lref)):
                                 res.fail("batchnorm_eval_inverse", site, "eval inverse is not the inverse of eval forward; history %s" % hist)
                                 return res
-                    bad = _sd_equal(subj.state_dict(), {"running_mean": model["running_mean"], "running_var": model["running_var"]})
+                    bad = _sd_equal(subj.state_dict(), {"running_mean": model["running_mean"], "running_var": model["running_var"]}, TOL)
                     if bad:
                         res.fail("batchnorm_state", site, "step %d %s: %s; history %s" % (step, hist[-1], bad, hist))
                         return res
